@@ -45,6 +45,7 @@ type PropCfg struct {
 	Residue    []string `json:"residue"`    // what stays undecided (copied into evidence.assumptions)
 	Technique  string   `json:"technique"`
 	NoContract bool     `json:"no_contract"` // include matching functions without contract (zero-annotation sweep)
+	Safety     bool     `json:"safety"`      // prove absence of panics (nil dereference, index, failed assertion, explicit panic) in every function of the set
 }
 
 func wildcard(pat, s string) bool {
@@ -272,7 +273,9 @@ func RunCheck(id, tier, repo string, seed int, updateBaseline, quiet, writeEvide
 	var units []*Unit
 	genStart := time.Now()
 	for _, n := range names {
+		eng.ForceSafety = cfg.Safety
 		units = append(units, eng.GenUnit(eng.Funcs[n]))
+		eng.ForceSafety = false
 	}
 	units = append(units, eng.constUnit(cfg)...)
 	units = append(units, eng.lemmaUnits(cfg)...)
